@@ -38,5 +38,6 @@ def run(ctx):
     lib_py.kw_forward(ctx, py, mods=("trees",), only=ps)
     lib_variant.sample_walks(ctx, P, tus=("trees",), floor=2)
     lib_module.name_agreement(ctx, P, classes=("Tree",), floor=40)
+    lib_module.module_every_path(ctx, P, classes=("Tree",), floor=10)
     lib_py.facade_names(ctx, py, P, classes=(("trees", "Tree"),), floor=40)
     lib_mem.c_lints(ctx, ctx.program(), scopes.lib_scope("C01"))
